@@ -247,6 +247,20 @@ def check(run):
             l = call(it, s, 'load_string', K(len(text.encode())))
             good = isinstance(l, K) and l.v == text and isinstance(p, K) and p.v == text and rem(it, s) == 0
             run.check(good, 'D5', 'Builder.store_string/Slice.load_string' if not good else f'string[{len(text)}]', f'read back {vrepr(l)[:30]}', wb)
+        with guard(run, 'D5', 'Builder.store_string/Slice.load_string', wb, 'string, default length'):
+            # the default length means "the rest of the slice": after a leading field, the peek and the read return the text and the read leaves nothing
+            text = text[:126]          # one byte of the cell goes to the leading field
+            b = builder(it)
+            call(it, b, 'store_uint', K(5), K(8))
+            call(it, b, 'store_string', K(text))
+            s = to_slice(it, b)
+            call(it, s, 'load_uint', K(8))
+            p = call(it, s, 'preload_string')
+            before = rem(it, s)
+            l = call(it, s, 'load_string')
+            good = isinstance(l, K) and l.v == text and isinstance(p, K) and p.v == text and before == 8 * len(text.encode()) and rem(it, s) == 0
+            run.check(good, 'D5', 'Slice.load_string[default length]' if not good else f'string-default[{len(text)}]',
+                      f'load_string() after a uint8: peek {vrepr(p)[:24]}, read {vrepr(l)[:24]}, bits left {rem(it, s)} (must be 0)', wb)
     for nb in (1, 2, 9, 1023):
         with guard(run, 'D5', 'Builder.store_bits/Slice.load_bits', wb, f'{nb} bits'):
             d = cm.data_bits(nb, 'payload')
@@ -337,6 +351,35 @@ def check(run):
             good = p is kids[3] and l is kids[3] and pr is kids[3] and rem(it, s) == 0
             run.check(good, 'D5', 'Slice.preload_maybe_ref/preload_ref[advanced cursor]' if not good else f'peek-after-{nskip}-refs',
                       f'after {nskip} consumed reference(s): preload_maybe_ref -> {vrepr(p)[:20]}, preload_ref -> {vrepr(pr)[:20]}, load_maybe_ref -> {vrepr(l)[:20]} (all must be the stored cell)', wb)
+    # preload_ref(k): the k-th reference not yet consumed, for every cursor position; nothing is consumed
+    for nskip in (0, 1, 2):
+        it = Interp(prog)
+        kids = [cm.leaf(it, 3 + i, f'k{i}') for i in range(4)]
+        with guard(run, 'D5', 'Slice.preload_ref[offset]', ws, 'peek at a later reference'):
+            b = builder(it)
+            for k in kids:
+                call(it, b, 'store_ref', k)
+            s = to_slice(it, b)
+            for _ in range(nskip):
+                call(it, s, 'load_ref')
+            got = [call(it, s, 'preload_ref', K(off)) for off in range(4 - nskip)]
+            nxt = call(it, s, 'load_ref')
+            good = all(g is kids[nskip + off] for off, g in enumerate(got)) and nxt is kids[nskip]
+            run.check(good, 'D5', 'Slice.preload_ref[offset]' if not good else f'preload_ref-offset[after {nskip}]',
+                      f'after {nskip} consumed reference(s): preload_ref(0..{3 - nskip}) -> {[vrepr(g)[:12] for g in got]}, then load_ref -> {vrepr(nxt)[:12]}', wb)
+    # snake strings with and without the zero prefix byte
+    for text in ('', 'a', 'snake ' * 40, 'z' * 127, 'z' * 128):
+        for prefix in (False, True):
+            it = Interp(prog)
+            with guard(run, 'D5', 'Builder.store_snake_string/Slice.load_snake_string', wb, 'snake string'):
+                b = builder(it)
+                call(it, b, 'store_snake_string', K(text), K(prefix)) if prefix else call(it, b, 'store_snake_string', K(text))
+                s = to_slice(it, b)
+                first = call(it, s, 'load_uint', K(8)) if prefix else None
+                l = call(it, s, 'load_snake_string')
+                good = isinstance(l, K) and l.v == text and (not prefix or (isinstance(first, K) and first.v == 0)) and rem(it, s) == 0
+                run.check(good, 'D5', 'Builder.store_snake_string/Slice.load_snake_string' if not good else f'snake-string[len={len(text)},prefix={int(prefix)}]',
+                          f'{len(text)} characters, need_prefix={prefix}: prefix byte {vrepr(first)}, read back {vrepr(l)[:24]}, bits left {rem(it, s)}', wb)
     # load_dict on an absent dictionary consumes one bit and no reference
     it = Interp(prog)
     b = builder(it)
